@@ -111,6 +111,8 @@ func layersOf(kind string) int {
 	switch kind {
 	case "mem", "kvplain", "mount0", "minimal":
 		return 0
+	case "mountstack":
+		return 2
 	case "mount2", "subsub", "ossub2", "submountpt":
 		return 2
 	case "ossub3":
@@ -244,7 +246,7 @@ func run(t *testing.T, kind string) {
 	})
 }
 
-var kinds = []string{"minimal", "mem", "kvplain", "osfs", "ossub2", "ossub3", "mount0", "mount1", "mount2", "submem", "subsub", "submountpt"}
+var kinds = []string{"minimal", "mem", "kvplain", "osfs", "ossub2", "ossub3", "mount0", "mount1", "mount2", "mountstack", "submem", "subsub", "submountpt"}
 
 func TestMem(t *testing.T)        { run(t, "mem") }
 func TestMinimal(t *testing.T)    { run(t, "minimal") }
@@ -255,6 +257,7 @@ func TestOSSub3(t *testing.T)     { run(t, "ossub3") }
 func TestMount0(t *testing.T)     { run(t, "mount0") }
 func TestMount1(t *testing.T)     { run(t, "mount1") }
 func TestMount2(t *testing.T)     { run(t, "mount2") }
+func TestMountStack(t *testing.T) { run(t, "mountstack") }
 func TestSubMem(t *testing.T)     { run(t, "submem") }
 func TestSubSub(t *testing.T)     { run(t, "subsub") }
 func TestSubMountPt(t *testing.T) { run(t, "submountpt") }
